@@ -183,12 +183,23 @@ def load_known():
     return json.load(open(p))["findings"]
 
 
+_inputs_cache = {}
+
+
 def match_known(prop, v, known):
+    """A violation is covered by an open finding iff the failing clause equals the finding's symptom AND either the harness
+    tagged it with the finding's class, or the finding lists specific failing inputs (sha1 of the case description) and this is one."""
+    import hashlib
     for k in known:
         if k["property"] != prop or k.get("status") != "open":
             continue
         if k["symptom"] != v["clause"]:
             continue
-        if k["class"] in v.get("classes", []):
+        if k.get("class") and k["class"] in v.get("classes", []):
             return k
+        if k.get("inputs_file"):
+            if k["inputs_file"] not in _inputs_cache:
+                _inputs_cache[k["inputs_file"]] = set(json.load(open(os.path.join(VERIF, k["inputs_file"])))["inputs"])
+            if hashlib.sha1(v["desc"].encode()).hexdigest()[:16] in _inputs_cache[k["inputs_file"]]:
+                return k
     return None
